@@ -65,7 +65,7 @@ func (d *distStub) ServeHTTP(w http.ResponseWriter, r *http.Request) {
 	if d.plan[r.RequestURI] == "stall" {
 		// answers only after the client's own timeout (http.Client.Timeout) has fired; the lock is not held meanwhile
 		d.mu.Unlock()
-		time.Sleep(600 * time.Millisecond)
+		time.Sleep(2600 * time.Millisecond)
 		d.mu.Lock()
 		w.WriteHeader(200)
 		return
@@ -109,7 +109,7 @@ func scenarioDist(t *traceWriter, rng *rand.Rand) {
 	keyB := genLogKey(rng, "dist-log-b")
 	names := []string{"dwit", "wit.ness-1", "w%41x", "wit/ness", "é-wit", "a:b@c"}
 	tr := newExplicitBranch("trunk", 9, nil, 0)
-	nCases := pick(400, 20000)
+	nCases := pick(400, 12000)
 	for ci := 0; ci < nCases; ci++ {
 		wname := names[0]
 		if rng.Intn(4) == 0 {
@@ -144,7 +144,7 @@ func scenarioDist(t *traceWriter, rng *rand.Rand) {
 		}
 		// a per-request timeout of the HTTP client (cmd/omniwitness --http_timeout): a distributor that stalls on one
 		// log costs that log its push, nothing else
-		client := &http.Client{Timeout: 400 * time.Millisecond}
+		client := &http.Client{Timeout: 2 * time.Second} // generous: a loaded machine must not turn an ordinary PUT into a timeout
 		if ci%2 == 0 {
 			// a bounded connection pool, kept for the Distributor's whole life: an answer whose body is never closed
 			// keeps its connection, and after two of those nothing more can be sent
@@ -167,11 +167,11 @@ func scenarioDist(t *traceWriter, rng *rand.Rand) {
 			var wans, dans, lcfg []string
 			for i, l := range defs {
 				wa := witAnsKinds[(ci/7+i*3)%len(witAnsKinds)]
-				da := distAnsKinds[(ci+i)%len(distAnsKinds)]
+				da := distAnsKinds[(ci+i)%(len(distAnsKinds)-1)] // the enumerated part leaves out "stall" (it costs seconds each)
 				if ci >= len(witAnsKinds)*len(distAnsKinds) {
 					wa = witAnsKinds[rng.Intn(len(witAnsKinds))]
 					da = distAnsKinds[rng.Intn(len(distAnsKinds)-1)] // "stall" (last) costs wall-clock time: rarely
-					if rng.Intn(30) == 0 {
+					if rng.Intn(90) == 0 {
 						da = "stall"
 					}
 					if rng.Intn(3) == 0 {
@@ -180,7 +180,7 @@ func scenarioDist(t *traceWriter, rng *rand.Rand) {
 				}
 				if round > 0 {
 					da = []string{"200", "200", "500", "conn", "200", "200"}[rng.Intn(6)]
-					if rng.Intn(12) == 0 {
+					if rng.Intn(40) == 0 {
 						da = "stall"
 					}
 					if prevKind[i] == "valid" {
